@@ -376,7 +376,10 @@ def run_check(pid: str, tier: str, base_seed: int, runs: Optional[int], jobs: in
             known_hits[sig] = len(rs)
             continue
         if len(new_violations) >= max_report:
-            print("violation (not minimised, report cap reached): signature=%s runs=%d" % (sig, len(rs)))
+            if len(new_violations) < max_report + 6:
+                print("violation (not minimised, report cap reached): signature=%s runs=%d" % (sig, len(rs)))
+            elif len(new_violations) == max_report + 6:
+                print("violation (not minimised, report cap reached): ... further signatures are listed in the evidence file only")
             new_violations.append({"sig": sig, "cls": rs[0]["violations"][0]["cls"], "replay": None, "runs": len(rs)})
             exit_code = EXIT_VIOLATION
             continue
